@@ -59,6 +59,18 @@ def check(tier, seed):
             if why:
                 res.violation('C03 oracle: ' + why, {'property': 'C03', 'input': desc, 'implementation_says': impl[:1500], 'reason': why}, f'c03-near|{c}|{i}')
             cases.append(Case('ubx-parser-near-cids', G.ubx_cmd(filt, ops), impl, desc, kind='near-cids'))
+        for _ in range(20 if tier == 'quick' else 500):
+            L = [rng.choice(G.CIDS), rng.choice(G.CIDS)]
+            x = rng.choice([c for c in G.CIDS if c not in L])
+            fx = G.frame(x[0], x[1], b'\x07')
+            ops = [('FS', L), ('F', x), ('FS', L), ('P', fx + G.frame(L[0][0], L[0][1], b'\x01'))]
+            impl = G.impl_ubx(None, ops)
+            toks = impl.split('q=[')[1].split(']')[0].split()
+            why = G.sound_c03(fx + G.frame(L[0][0], L[0][1], b'\x01'), L, toks)
+            desc = {'kind': 'filter-list-reuse', 'L': L, 'x': x}
+            if why:
+                res.violation('C03 oracle: ' + why, {'property': 'C03', 'input': desc, 'implementation_says': impl[:800], 'reason': why}, 'c03-listreuse')
+            cases.append(Case('ubx-parser-filter-list-reuse', G.ubx_cmd(None, ops), impl, desc, kind='filter-list-reuse'))
         res.compare(cases)
         res.oblige('correspondence UbxParser on raw streams (Tie A)', not res.disagreements)
         res.oblige('independent C03 occurrence matcher', not res.violations)
